@@ -99,6 +99,8 @@ def _int_default(node: Optional[ast.AST], annotation: str) -> bool:
 
 
 def run(ctx: Ctx) -> None:
+    if getattr(ctx, "_depth", 0) >= 2:
+        return  # alias of an alias: not followed (breaks import cycles between rule modules)
     repo = ctx.repo
     main = repo.func("__main__", "main")
     where = "__main__:main"
